@@ -2,7 +2,7 @@
 needs (DESIGN.md section 6, C18; spec/InputLoop.tla).
 
 P1  TLC explores the read-eval-loop machine of InputLoop.tla on every script
-    of up to MaxLen physical lines over 15 line kinds, in both feed classes
+    of up to MaxLen physical lines over 17 line kinds, in both feed classes
     (script on descriptor 0 / script as a string), checking OffAtExec and
     PrefixBeforeError, and prints the scenario catalogue; a second model
     (SpecC) lets a feeder deliver the script in chunks under every
@@ -162,7 +162,7 @@ def run(tier):
                 "has at least one probe event or a syntax error, plus random-script records with a non-empty trace; "
                 "each run in every feed mode of its class",
         "exhaustive": True,
-        "exhaustive_bound": f"all scripts of the {T['cat_cfg']} bound over 15 line kinds; random scripts beyond",
+        "exhaustive_bound": f"all scripts of the {T['cat_cfg']} bound over 17 line kinds; random scripts beyond",
         "configs": [T["cat_cfg"], T["chunk_cfg"]],
         "catalogue_scenarios_run": n_in,
         "catalogue_scenarios_with_syntax_error": n_err,
@@ -172,11 +172,14 @@ def run(tier):
         "tlc_action_coverage": cov,
         "actions_not_exercised": unexercised,
     }, time.time() - t0, violations=len(rep.violations), assumptions=[
-        "scripts are built from the 15 line kinds of InputLoop.tla (Text); lines joined by backslash-newline to "
+        "scripts are built from the 17 line kinds of InputLoop.tla (Text); lines joined by backslash-newline to "
         "anything but a plain word list, here-documents without delimiter line and a backslash at end of input "
         "are outside the family (POSIX leaves them open or a token-level grammar would be needed)",
         "`$?` and the exit status are compared as zero / non-zero; the text of diagnostics is not compared",
         "descriptor offsets are observed on regular files (simulated and real) and on simulated pipes; not on real pipes",
+        "O_NONBLOCK of descriptor 0 is observed (at every probe and after the run) in pipe-fed runs, about half of "
+        "which start with the flag set on the read end; data lines that are not valid UTF-8 appear only where "
+        "`read` consumes them (as command text their treatment is open)",
         "real-OS pipe runs cannot control the kernel's scheduling; chunk boundaries are separated by short sleeps",
         "TLC 1.8.0 and the JSON community module are trusted",
     ])
